@@ -30,12 +30,22 @@ impl<'a> Bpb<'a> {
             return Err("Bad BPB footer");
         }
 
+        // All of these fields come straight from the medium: do the layout
+        // arithmetic with checks instead of trusting them.
+        if bpb.blocks_per_cluster() == 0 {
+            return Err("BPB has zero blocks per cluster");
+        }
         let root_dir_blocks =
             BlockCount::from_bytes(u32::from(bpb.root_entries_count()) * OnDiskDirEntry::LEN_U32).0;
-        let non_data_blocks = u32::from(bpb.reserved_block_count())
-            + (u32::from(bpb.num_fats()) * bpb.fat_size())
-            + root_dir_blocks;
-        let data_blocks = bpb.total_blocks() - non_data_blocks;
+        let non_data_blocks = u32::from(bpb.num_fats())
+            .checked_mul(bpb.fat_size())
+            .and_then(|fats| fats.checked_add(u32::from(bpb.reserved_block_count())))
+            .and_then(|blocks| blocks.checked_add(root_dir_blocks))
+            .ok_or("BPB FAT area does not fit the volume")?;
+        let data_blocks = bpb
+            .total_blocks()
+            .checked_sub(non_data_blocks)
+            .ok_or("BPB total size is smaller than its FATs and root directory")?;
         bpb.cluster_count = data_blocks / u32::from(bpb.blocks_per_cluster());
         if bpb.cluster_count < 4085 {
             return Err("FAT12 is unsupported");
